@@ -413,6 +413,29 @@ func main() {
 		}
 	}
 	nCorpus := len(jobs)
+	// constant-operand probes: every operator x operand position x constant value x type
+	type cpSpec struct {
+		base string
+		k    *big.Int
+	}
+	var cps []cpSpec
+	for _, base := range []string{"u8", "u16", "u32", "u64"} {
+		_, hi := baseBounds(base)
+		for _, v := range []int64{0, 1, 255, 65535, 0x7FFFFFFF, 0xFFFFFFFF} {
+			k := big.NewInt(v)
+			if k.Cmp(hi) <= 0 {
+				cps = append(cps, cpSpec{base, k})
+			}
+		}
+		if base == "u64" {
+			cps = append(cps, cpSpec{base, new(big.Int).Set(hi)})
+		}
+	}
+	constProbe := map[int]cpSpec{}
+	for _, c := range cps {
+		constProbe[len(jobs)] = c
+		jobs = append(jobs, job{idx: len(jobs), origin: "constprobe", seed: r.Rand.Uint64()})
+	}
 	for i := 0; i < nProg; i++ {
 		jobs = append(jobs, job{idx: len(jobs), origin: "gen", seed: r.Rand.Uint64()})
 	}
@@ -440,6 +463,12 @@ func main() {
 				}
 				g := &Gen{rng: hlib.NewRand(j.seed), fr: fr, stats: map[string]int{}}
 				src, origin := j.src, j.origin
+				if cp, ok := constProbe[j.idx]; ok {
+					p, hs := g.ConstProbe(cp.base, cp.k)
+					src, _ = p.Render(-1)
+					j.hists = hs
+					origin = fmt.Sprintf("constprobe:%s:%s", cp.base, cp.k.String())
+				}
 				if src == "" {
 					p := g.NewProgram()
 					if j.mutate {
@@ -647,8 +676,10 @@ func main() {
 	runNoRec(r, NewFront(), nNoRec)
 	if toolsErr == nil {
 		runIOProbes(r, NewFront(), tools)
+		runMustReject(r, tools)
 	} else {
 		runIOProbes(r, NewFront(), nil)
+		runMustReject(r, nil)
 	}
 
 	nPanic := 0
